@@ -441,8 +441,6 @@ structure PArg where
   ann : Option AnnExpr
   deriving Repr, Inhabited
 
-/-- `ast.arguments` + `returns` of a `def`, the class it is a plain method of (if any), and whether
-the module has `from __future__ import annotations`. -/
 /-- what kind of function the `def` statement makes: `def`, `async def` without `yield` (a coroutine
 function), `async def` with `yield` (an async generator), `def` with `yield` (a generator) -/
 inductive FnKind where
@@ -458,6 +456,8 @@ def coroTy (t : Ty) : Ty := .generic coroCls [.any, .any, t]
 
 def wrapRet (isCoro : Bool) (t : Ty) : Ty := if isCoro then coroTy t else t
 
+/-- `ast.arguments` + `returns` of a `def`, the class it is a plain method of (if any), and whether
+the module has `from __future__ import annotations`. -/
 structure DefArgs where
   kind : FnKind := .plain
   posonly : List PArg
